@@ -548,6 +548,49 @@ pub fn check_vtype(ctx: &Ctx, kind: Kind, out: &mut Outcome, q: u32, t: u32) {
     finish(ctx, "", acc, found, out, "vtype", &exec, &shrink);
 }
 
+/// C19 at run time: every `&self` method from several threads at once on a shared cache
+pub fn check_conc(ctx: &Ctx, out: &mut Outcome) {
+    let (made, bad) = crate::conc::run_conc(ctx.tier == Tier::Thorough);
+    out.coverage.insert("concurrent_reader_observations".into(), json!(made));
+    if let Some(msg) = bad {
+        let v = Violation { prop: "C19", step: 0, msg, sig: "conc/-/shared-readers-disagree".into() };
+        if ctx.known.matches(&ctx.id, &v.sig).is_none() {
+            let path = write_replay(&ctx.replay_dir(), &ctx.id, "conc", json!({"scenario": "6 threads, every &self method, prefilled caches of all five kinds"}), &v);
+            out.violations.push((path, v.msg));
+        }
+    }
+}
+
+/// C02 with key types whose borrowed form is unsized (prefix slices of one buffer, paths)
+pub fn check_keys(ctx: &Ctx, out: &mut Outcome, q: u32, t: u32) {
+    use crate::keys::*;
+    let th = ctx.tier == Tier::Thorough;
+    let strat = move || kcase_strategy(th);
+    let exec = |c: &KCase| run_keys(c);
+    let hash_case = |c: &KCase| {
+        let mut d = Case { kind: c.kind, cfg: Cfg::simple(c.cap), keys: KeyMode::Tracked, alphabet: 0, ops: vec![] };
+        d.cfg.sketch_seed = Some(fnv64(serde_json::to_string(c).unwrap_or_default().as_bytes()));
+        d
+    };
+    journal_for(ctx, "keys");
+    let (acc, found) = run_engine(&strat, &exec, &hash_case, &ctx.id, ctx.seed, 0x7e15, ctx.workers, ctx.cases(q, t), &ctx.known);
+    let shrink = |c: &KCase, f: &dyn Fn(&KCase) -> bool| -> KCase {
+        let mut cur = c.clone();
+        let mut i = 0;
+        while i < cur.ops.len() {
+            let mut x = cur.clone();
+            x.ops.remove(i);
+            if f(&x) {
+                cur = x;
+            } else {
+                i += 1;
+            }
+        }
+        cur
+    };
+    finish(ctx, "", acc, found, out, "keys", &exec, &shrink);
+}
+
 /// C08: the victim rule around the quota at several scales
 pub fn check_twoq_victim_grid(ctx: &Ctx, out: &mut Outcome) {
     let (reached, tried, bad) = crate::big::twoq_victim_grid(ctx.tier == Tier::Thorough);
